@@ -212,6 +212,15 @@ def judge(case, impl_res, ans):
             return 'SPEC: channels.rawInd %s does not give back each probe\'s original channel map %s' % (raw['vals'], res[0]['spec'])
     elif raw['vals'] != res[0]['model']:
         return 'CORR: channels.rawInd differs from the model'
+    elif res[0]['ordered'] != res[0]['nonneg']:
+        return 'MACHINERY: probe table in channel-map order <-> no negative raw index does not hold on the model'
+    raw_finding = None
+    if not case.get('probes') and not res[0]['ordered']:
+        # a SINGLE dataset whose probe labels are not non-decreasing along the channel map (never the output of a merge):
+        # the exported per-probe indices are negative. Not accepted: reported (after every other clause was judged) under
+        # a narrow class, recorded as an open finding - the statement defines no per-probe index for such a table
+        raw_finding = ('SPEC: channels.rawInd %s holds negative raw indices: probe labels %s are not in channel-map order %s '
+                       '(single dataset)' % (raw['vals'], sm['channel_probes'], sm['channel_mapping']))
     # 2. listed channels
     for i, fam in ((1, 'templates'), (2, 'clusters')):
         if res[i]['model_spec'] is not True:
@@ -236,6 +245,10 @@ def judge(case, impl_res, ans):
     # 2a. the source arrays are the stored ones (templates, amplitudes, assignments as written to disk)
     spec_ = case.get('spec')
     if spec_ is not None:
+        # the inverse whitening matrix the export unwhitens with is the stored inverse / an inverse of the stored matrix
+        bad = DC.check_wmi(spec_, sm['wmi'])
+        if bad:
+            return 'SPEC: ' + bad
         if sm['templates'] != np.asarray(spec_['templates'], dtype=np.float32).astype(np.float64).tolist():
             return 'SPEC: the template waveforms of the source model differ from the stored templates.npy'
         if sm['amplitudes'] != [float(x) for x in spec_['amplitudes']] or sm['spike_templates'] != list(spec_['spike_templates']) or \
@@ -303,7 +316,7 @@ def judge(case, impl_res, ans):
         return 'SPEC: spikes.depths differ from %s' % (
             'the feature-weighted channel depths (NaN where no positive weight)' if res[I_DEP]['from_features']
             else 'the cluster depths (no feature row for every spike)')
-    return None
+    return raw_finding
 
 
 def nontrivial(case):
@@ -333,9 +346,17 @@ def tally(rep, case, impl_res, ans):
     pr = (case.get('spec') or {}).get('channel_probes')
     if pr and pr != sorted(pr):
         rep.count('interleaved_probe_labels')
+    r0 = ((ans.get('ok') or {}).get('res') or [{}])[0]
+    if 'ordered' in r0 and len(set(pr or [])) > 1:
+        rep.count('rawInd of a single dataset with several probes: ' + (
+            'labels in channel-map order, judged = per-probe index, none negative' if r0['ordered'] else
+            'labels NOT in channel-map order -> negative raw index, reported as open finding (not accepted)'))
 
 
 def classify(case, impl_res, ans, why):
+    if why.startswith('SPEC: channels.rawInd') and 'not in channel-map order' in why:
+        return dict(kind='SPEC', site='make_channel_objects', probe_labels='not in channel-map order',
+                    observed='negative raw index', merged=False)
     return dict(kind=why.split(':')[0], what=why.split(':')[1].strip()[:40], merged=bool(case.get('probes')),
                 nprobes_ge3=len(case.get('probes', [])) >= 3, raised=impl_res.get('raised'), where=impl_res.get('where'))
 
